@@ -478,9 +478,15 @@ func runC08(seed int64, tier string, out string) {
 		func() {
 			sc := newScratch()
 			defer sc.Close()
+			defer func() {
+				if e := recover(); e != nil {
+					meta.Direct = append(meta.Direct, DirectViolation{Key: "unexpected-failure", What: "the implementation failed where the harness needs it to work (reading a table back, COMMIT, ...): " + fmt.Sprint(e),
+						Case: map[string]interface{}{"statement": p.f.stmt, "failure": p.f.fail, "rows": p.n, "failing_row": p.K, "temporary": p.isTemp, "state_before": p.pre}})
+				}
+			}()
 			init := map[int]initTab{0: c08Target(p.n), 1: c08Aux(p.n, p.K)}
 			writeInit(sc.Dir, init)
-			s := newLibSess(sc.Dir, 1)
+			s := newLibSess(sc.Dir, 5)
 			r := &recorder{s: s, w: w, nfiles: 3, ntemps: 1}
 			T, A := fileSQL(0), fileSQL(1)
 			if p.isTemp {
@@ -603,8 +609,56 @@ func runC08(seed int64, tier string, out string) {
 	for i := 0; i < nCancel; i++ {
 		c08Cancel(rnd, meta, i)
 	}
+	c08CopyShape(meta)
 	meta.Distinct = len(seen)
 	meta.write(out)
+}
+
+// the shape Model/CopyPublish.v assumes of ViewMap.Get (= View.Copy): a fresh array per record,
+// the cells shared with the cached view
+func c08CopyShape(meta *Meta) {
+	sc := newScratch()
+	defer sc.Close()
+	writeInit(sc.Dir, map[int]initTab{0: c08Target(4)})
+	s := newLibSess(sc.Dir, 5)
+	defer s.finish(false)
+	if _, err := s.read(fileSQL(0)); err != nil {
+		panic(err)
+	}
+	for _, k := range s.tx.CachedViews.Keys() {
+		orig, ok := s.tx.CachedViews.Load(k)
+		if !ok {
+			continue
+		}
+		cp, err := s.tx.CachedViews.Get(k)
+		if err != nil {
+			panic(err)
+		}
+		meta.Evaluations++
+		bad := ""
+		if len(cp.RecordSet) != len(orig.RecordSet) || len(cp.Header) != len(orig.Header) {
+			bad = "the copy has another shape"
+		} else {
+			if len(cp.Header) > 0 && &cp.Header[0] == &orig.Header[0] {
+				bad = "the header array is shared"
+			}
+			for i := range cp.RecordSet {
+				if len(cp.RecordSet[i]) > 0 && &cp.RecordSet[i][0] == &orig.RecordSet[i][0] {
+					bad = fmt.Sprintf("record array %d is shared with the cached view", i)
+				}
+				for j := range cp.RecordSet[i] {
+					if len(cp.RecordSet[i][j]) > 0 && &cp.RecordSet[i][j][0] != &orig.RecordSet[i][j][0] {
+						meta.Distribution["copy-shape:cells-not-shared"]++ // allowed (stronger than the model needs)
+					}
+				}
+			}
+		}
+		if bad != "" {
+			meta.Direct = append(meta.Direct, DirectViolation{Key: "copy-aliases-cached-view", What: "ViewMap.Get does not return an isolated copy: " + bad, Case: map[string]interface{}{"table": k}})
+		} else {
+			meta.Distribution["copy-shape:fresh-record-arrays"]++
+		}
+	}
 }
 
 func c08Cancel(rnd *rand.Rand, meta *Meta, i int) {
@@ -619,7 +673,7 @@ func c08Cancel(rnd *rand.Rand, meta *Meta, i int) {
 	if err := os.WriteFile(filepath.Join(sc.Dir, fileName(0)), []byte(b.String()), 0644); err != nil {
 		panic(err)
 	}
-	s := newLibSess(sc.Dir, 1)
+	s := newLibSess(sc.Dir, 5)
 	defer s.finish(false)
 	bg := context.Background()
 	if _, _, err := s.execOne(bg, "UPDATE "+fileSQL(0)+" SET c3 = 'pre' WHERE c1 = 1"); err != nil {
